@@ -76,11 +76,11 @@ def show_model(tag, body, check_fn="check_validate"):
 
 
 def standard_main(prop, prop_files, tier, seed, cases, rule, what, metamorphic=None, check_fn="check_validate",
-                  extra_assumptions=(), known=None, extra_vo=()):
+                  extra_assumptions=(), known=None, extra_vo=(), translators=(), extra_checks=None):
     """Shared driver: proof gates, model-vs-implementation correspondence on `cases`, optional metamorphic
     relation on the real code alone (`metamorphic(cases, observations)` -> list of (case index, description))."""
     rep = F.Report(prop, tier, seed)
-    ob = F.coq_build(prop_files, extra=list(EXTRA_VO) + list(extra_vo))
+    ob = F.coq_build(prop_files, translators=list(translators), extra=list(EXTRA_VO) + list(extra_vo))
     if not vocab_fresh():
         ob.broken.append("gate: coq/Base/Vocab.v is stale w.r.t. harness/enc.py")
     tag = prop.lower()
@@ -110,6 +110,14 @@ def standard_main(prop, prop_files, tier, seed, cases, rule, what, metamorphic=N
         d["model"] = show_model(tag, bodies[i], check_fn) if check_fn in ("check_validate", "SEL") else "see check function " + check_fn
         d["what"] = what
         rep.violation(d)
+    extra_stats = {}
+    if extra_checks:
+        # further correspondence runs of this property (they search for a failing input even when an obligation is broken)
+        st_, fails_, errs_ = extra_checks()
+        extra_stats.update(st_)
+        for d in fails_[:6]:
+            rep.violation(d)
+        errors = list(errors) + list(errs_ if ob.ok else [])
     if (not ob.ok or errors) and not rep.violations:
         rep.violation({"obligation": ob.broken or errors, "detail": ob.log[-1500:]}, no_input=True)
     kinds, optk = {}, {}
@@ -133,7 +141,7 @@ def standard_main(prop, prop_files, tier, seed, cases, rule, what, metamorphic=N
             "nonconforming": sum(1 for o in obs if o[0] == "ok" and not o[1]),
             "errors": {e: sum(1 for o in obs if o[0] == "err" and o[1] == e) for e in sorted({o[1] for o in obs if o[0] == "err"})},
             "with_details": sum(1 for o in obs if o[0] == "ok" and any(r[5] for r in o[2])),
-            "model_disagreements": len(failed), "metamorphic_violations": len(meta_viol),
+            "model_disagreements": len(failed), "metamorphic_violations": len(meta_viol), **extra_stats,
         },
         "samples": [S.describe_case(cases[i]["sg"], cases[i]["data"], cases[i]["opts"], obs[i]) for i in range(min(2, len(obs)))],
     })
